@@ -14,6 +14,8 @@ for d in seeded/*/; do
     C01-*) checks="C01 C02" ;;
     C15-finite*) checks="C15 C03" ;;
     C15-not*) checks="C15 C11" ;;
+    C09-compaction*) checks="C09 C05" ;;
+    C16-cancelled*) checks="C16" ;;
     C04-version*|C05-version*) checks="C04 C05" ;;
     *) checks="$id" ;;
   esac
